@@ -17,12 +17,14 @@ def run(db, res, tier):
   nw, classes = r_race.check_writes(res, scope)
   nr = r_race.check_cross_reads(res, scope)
   na = r_race.check_atomic_values(res, scope)
+  nord = r_race.check_order_arbitrary_lists(res, all_lcs, scope)
+  res.floor("positional reads of slot-ordered lists", nord, 40)
   nsnap = r_race.check_wake_snapshot(res, scope)
   res.floor("snapshot-guarded reads in the sleep waking kernels", nsnap, 4)
   res.floor("plain writes classified", nw, 2000)
   res.floor("reads of arrays written in the same launch", nr, 1800)
   res.floor("stores of atomic-derived values", na, 30)
-  res.rule_text = "R-RACE: (1) every non-atomic write lands on a cell determined by the writing thread (thread indices occur injectively - directly, through an injective address map, a loop over such an address, an atomically allocated slot, a flattened index, or a `tid == invariant` pin) or stores a thread-invariant value; (2) a launch that writes an array (incl. through aliased parameters) reads it only at cells the reading thread owns; (3) results of atomics are stored only into integer address/id arrays; everything else is a tabled idiom with its argument; (5) in the sleep waking kernels every read of the racy tree_asleep array outside the walker and off the thread's own cell is dominated by a test of a snapshot array (not written in the launch) at the same cell"
+  res.rule_text = "R-RACE: (1) every non-atomic write lands on a cell determined by the writing thread (thread indices occur injectively - directly, through an injective address map, a loop over such an address, an atomically allocated slot, a flattened index, or a `tid == invariant` pin) or stores a thread-invariant value; (2) a launch that writes an array (incl. through aliased parameters) reads it only at cells the reading thread owns; (3) results of atomics are stored only into integer address/id arrays; everything else is a tabled idiom with its argument; (6) a dimension filled through atomically allocated slots is never read at a fixed non-zero offset from a loop variable / thread index (neighbour reads make the result depend on slot order); (5) in the sleep waking kernels every read of the racy tree_asleep array outside the walker and off the thread's own cell is dominated by a test of a snapshot array (not written in the launch) at the same cell"
   res.explanation = (
     "Decides freedom from write-write and read-write conflicts between distinct threads of every launch reachable from step/forward/reset_data/get_state/set_state, with the aliasing induced by the launch bindings. "
     "`arr[i] += v` is an atomic in Warp (codegen lowers array augmented assignment to atomic_add) and is treated as such. "
